@@ -241,6 +241,14 @@ def run_case(case):
             if req.headers != want_h:
                 v("headers-not-preserved", f"{req.headers!r} != {want_h!r}", {"headers": repr(seq)})
             sigs.add("hdr:%d:%s" % (len(names), ",".join(sorted(set(n.lower() for n in names)))))
+            # the list the caller handed over stays the caller's: what the library adds (Host, Content-Length) goes into a
+            # list of its own (the two steps below are what request() / stream() do with the caller's headers)
+            mine = list(want_h)
+            req2 = httpcore.Request("POST", u, headers=mine)
+            include_request_headers(req2.headers, url=u, content=b"abc")
+            cnt["law_caller_list"] = cnt.get("law_caller_list", 0) + 1
+            if mine != want_h:
+                v("caller-header-list-mutated", f"{mine!r} was {want_h!r}", {"headers": repr(want_h)})
             # defaults
             cnt["law_content"] += 1
             lower = [k.lower() for k, _ in want_h]
